@@ -4,6 +4,8 @@ package main
 import (
 	"context"
 	"fmt"
+	"os"
+	"path/filepath"
 	"strings"
 
 	"github.com/prometheus/common/model"
@@ -57,6 +59,23 @@ func sites() []site {
 		withVals("check \"promql/series\" {\n  ignoreMetrics = [%s]\n}\n", regexVals[:6]), withVals("check \"promql/series\" {\n  fallbackTimeout = %s\n}\n", durVals[:4]),
 		[]string{"check \"promql/series\" {\n  ignoreLabelsValue = { \"foo\" = [\"bar\"] }\n}\n", "check \"promql/series\" {\n  ignoreLabelsValue = { \"foo{\" = [\"bar\"] }\n}\n", "check \"promql/series\" {\n  bogus = 1\n}\n", "check \"bogus/name\" {\n}\n"})
 	add("check-regexp", "", []string{"check \"promql/regexp\" {\n  smelly = false\n}\n", "check \"promql/regexp\" {\n  smelly = \"x\"\n}\n"})
+	// discovery: the template fields are rendered with what the directory scan finds; the scratch directory holds
+	// files whose names carry regexp and template metacharacters
+	disc := func(match, tpl string) string {
+		return fmt.Sprintf("discovery {\n  filepath {\n    directory = %q\n    match = %q\n    template {\n%s    }\n  }\n}\n", discDir, match, tpl)
+	}
+	nameURI := "      name = \"p-{{ $name }}\"\n      uri = \"http://127.0.0.1:1/{{ $name }}\"\n"
+	add("discovery", "", []string{
+		disc("(?P<name>.+)\\.yml", nameURI),
+		disc("(?P<name>.+)\\.yml", nameURI+"      include = [\"{{ $name }}/.*\"]\n"),
+		disc("(?P<name>.+)\\.yml", nameURI+"      exclude = [\"{{ $name }}\"]\n"),
+		disc("(?P<name>.+)\\.yml", nameURI+"      include = [\"static/.*\"]\n      exclude = [\"x(\"]\n"),
+		disc("(?P<name>.+)\\.yml", nameURI+"      tags = [\"{{ $name }}\"]\n      failover = [\"http://{{ $name }}\"]\n"),
+		disc("(?P<name>.+)\\.yml", nameURI+"      headers = { \"X-{{ $name }}\" = \"{{ $name }}\" }\n"),
+		disc("(?P<name>.+)\\.yml", "      name = \"{{ $nosuch }}\"\n      uri = \"http://x\"\n"),
+		disc("(?P<name>.+\\.yml", nameURI),
+		disc("(.+)\\.yml", "      name = \"fixed\"\n      uri = \"{{ $name }}\"\n"),
+	})
 	// rule block pieces (assembled into one rule {} block)
 	for _, kind := range []string{"match", "ignore"} {
 		var alts []string
@@ -191,6 +210,17 @@ const universeYAML = `groups:
 
 var (
 	entries []discovery.Entry
+	discDir = func() string {
+		d := filepath.Join(os.TempDir(), "verif-c18-disc")
+		if _, err := os.Stat("/dev/shm"); err == nil {
+			d = "/dev/shm/verif-c18-disc"
+		}
+		os.MkdirAll(d, 0o755)
+		for _, n := range []string{"plain.yml", "dc(2.yml", "a[b.yml", "x+y.yml", "sp ace.yml", "br{ace.yml", "back\\slash.yml", "qu\"ote.yml", "tpl{{.yml"} {
+			os.WriteFile(filepath.Join(d, n), []byte("groups: []\n"), 0o644)
+		}
+		return d
+	}()
 )
 
 func setup(string) {
@@ -244,6 +274,28 @@ func body(c *explore.Chooser) *explore.Case {
 		return cs
 	}
 	defer gen.Stop()
+	if strings.Contains(text, "discovery {") {
+		var derr error
+		func() {
+			defer func() {
+				if p := recover(); p != nil {
+					cs.Violate("panic:discovery", fmt.Sprintf("accepted config panics while discovering Prometheus servers: %v", p), map[string]any{"config": text, "directory_listing": "plain.yml dc(2.yml a[b.yml x+y.yml 'sp ace.yml' br{ace.yml back\\slash.yml qu\"ote.yml tpl{{.yml"})
+				}
+			}()
+			// on a generator of its own: the lint runs below must not talk to discovered (unreachable) servers
+			dg := pipeline.Generator(cfg)
+			defer dg.Stop()
+			derr = dg.GenerateDynamic(context.Background())
+		}()
+		if len(cs.Viol) > 0 {
+			cs.Outcome = "accepted+crash"
+			return cs
+		}
+		if derr != nil {
+			cs.Outcome = "accepted+discovery-error"
+			return cs
+		}
+	}
 	for _, cmd := range []config.ContextCommandVal{config.LintCommand, config.CICommand} {
 		es := entries
 		if cmd == config.CICommand {
@@ -266,7 +318,7 @@ func body(c *explore.Chooser) *explore.Case {
 func main() {
 	explore.Main(&explore.Config{
 		Property: "C18", Level: "exploration",
-		Rule: fmt.Sprintf("config assembled from %d option sites (parser, owners, ci, checks, check{} settings, rule{match,ignore,enable/disable/locked,aggregate,annotation,label,for,keep_firing_for,reject,name,link,range_query,report}) each with its catalogue of value classes (valid, invalid regexp, templated with every variable, unterminated template, template expanding to an invalid regexp, empty, invalid/negative/huge durations, unknown severities/names/states); all configs with <=k non-default sites (k=2 quick, 3 thorough) loaded by config.Load; accepted configs are applied (lint and ci command) to a rule universe whose names, labels and annotations carry regexp and template metacharacters. Violation = accepted and panics", len(allSites)),
+		Rule:        fmt.Sprintf("config assembled from %d option sites (parser, owners, ci, checks, check{} settings, discovery{filepath{template{}}} rendered against a directory whose file names carry metacharacters, rule{match,ignore,enable/disable/locked,aggregate,annotation,label,for,keep_firing_for,reject,name,link,range_query,report}) each with its catalogue of value classes (valid, invalid regexp, templated with every variable, unterminated template, template expanding to an invalid regexp, empty, invalid/negative/huge durations, unknown severities/names/states); all configs with <=k non-default sites (k=2 quick, 3 thorough) loaded by config.Load; accepted configs are applied (lint and ci command) to a rule universe whose names, labels and annotations carry regexp and template metacharacters. Violation = accepted and panics", len(allSites)),
 		Assumptions: []string{"checks run through the sequential seam: a panic in Check() kills the shipped command because scanWorker does not recover", "online checks (cost, alerts, prometheus{}) are outside this space"},
 		Spaces: []*explore.Space{{Name: "configs", Body: body, Setup: setup, Bound: func(t string) int {
 			if t == "thorough" {
